@@ -242,7 +242,9 @@ func RunProp[C any](t *testing.T, p Prop[C]) {
 			nt, labels = p.NT(c)
 		}
 		stats.record(c, nt, labels)
-		if f := p.Exec(c); f != nil {
+		if f := execWithWatchdog(p.Exec, c, func() {
+			writeCaseFile(failName, p.ID, test, c, TimingFailf(p.ID+"/case-hang", "the case did not finish within %v (a call into the library never returned)", caseTimeout()))
+		}); f != nil {
 			writeCaseFile(failName, p.ID, test, c, f)
 			rt.Fatalf("%s", f.Error())
 		}
@@ -333,4 +335,29 @@ func Bound() time.Duration {
 		return 3 * time.Second
 	}
 	return 250 * time.Millisecond
+}
+
+func caseTimeout() time.Duration {
+	if v := os.Getenv("VERIF_CASE_TIMEOUT"); v != "" {
+		if d, err := time.ParseDuration(v); err == nil {
+			return d
+		}
+	}
+	return 120 * time.Second
+}
+
+// execWithWatchdog runs one case; if it does not return in time the process is
+// ended (the stuck goroutines cannot be reclaimed) after onHang recorded the case.
+func execWithWatchdog[C any](exec func(C) *Failure, c C, onHang func()) *Failure {
+	done := make(chan *Failure, 1)
+	go func() { done <- exec(c) }()
+	select {
+	case f := <-done:
+		return f
+	case <-time.After(caseTimeout()):
+		onHang()
+		fmt.Fprintln(os.Stderr, "verif: case hang, ending the worker")
+		os.Exit(1)
+		return nil
+	}
 }
